@@ -210,7 +210,7 @@ Theorem C14_modattr_roundtrip_nested : forall fe P o0,
 Proof. exact ps_reload_roundtrip. Qed.
 Print Assumptions C14_modattr_roundtrip_nested.
 
-(* [ps_reload_inv] holds after every history of the admitted kind *)
+(* [ps_reload_inv] holds after every history of the allowed kind *)
 Theorem C14_reload_inv_reachable : forall fe P o0,
   (forall p p', In p P -> In p' P -> p <> p' -> ps_incomp p p') ->
   (forall p, In p P -> ps_cfg_field fe p) ->
@@ -220,7 +220,7 @@ Proof. exact ps_reload_run. Qed.
 Print Assumptions C14_reload_inv_reachable.
 
 (* HISTORIES WITH DUMP AS AN OPERATION: the state is the object plus the script in modified-attributes.conf.  After any
-   history of modify / restore / dump operations of the admitted kind, either nothing was ever dumped and there is no
+   history of modify / restore / dump operations of the allowed kind, either nothing was ever dumped and there is no
    file, or the file holds exactly the script of the LAST dump (H = H1 ++ dump :: H2 with no dump in H2), and replaying
    it on the configured object yields the values the object had at that dump; if everything had been restored before
    that dump the script is EMPTY and the replay changes nothing (a stale file from an earlier dump cannot survive). *)
